@@ -29,7 +29,7 @@ def run(ctx):
         e["t"] = 2
     vlib.note_events(ctx, g + t)
     bad = vlib.validate_trace(ctx, "MerkleTrace", g + t, chunk=40)
-    for e in vlib.reproduce(ctx, binp, bad):
+    for e in vlib.reproduce(ctx, binp, bad, history=g + t):
         ctx.bad.append(dict(event=e, reason="real merkle.Hasher disagrees with the Merkle specification"))
     return vlib.finish(ctx, LEVEL, RULE, ASSUME,
                        technique="TLA+ spec Merkle over a free term algebra; TLC model n<=64; recording crypto.Hash traces rebuilt as terms by TLC; spec-chosen shapes folded with real hashes")
